@@ -37,7 +37,7 @@ def run():
     ck.add_model('MCIsa', r, 'all 256 opcodes x 9x9 dst/src bytes x 33 mod bytes (every mem/shift/cond value) x 12 immediate classes: structural facts of the decode result; literal opcode table = frequencies')
     if not r['ok']:
         ck.violation('model:MCIsa', 'instruction-set definition is inconsistent', vlib.tlc_error_summary(r['out'], 40))
-    lines = record('verif', ['steps', 'mulgrid', 'memops', 'fp'], ck, wd, 'isa')
+    lines = record('verif', ['steps', 'mulgrid', 'memops', 'fp', 'rcp', 'sweep'], ck, wd, 'isa')      # (rcp, sweep: the reciprocal IMUL_RCP multiplies by - shared with C18)
     res = vlib.validate_sharded('TraceIsa', 'TraceIsa.cfg', lines, 'c05', shards=16, timeout=3000)
     ck.add_traces('TraceIsa', res, 'instruction words decoded and executed by the real BytecodeMachine from recorded states; host IEEE operations in all rounding modes')
     ck.reject('TraceIsa', res, key_of)
